@@ -442,7 +442,50 @@ def r86(facts, res):
     c05.r51(facts, res, 'R8.6')
 
 
+def r88(facts, res):
+    """Shift arm: the lexeme pushed on the value stack is the one whose token id was looked up in the action table on this very
+    round (`next_lexeme(i)` for a lookup of `next_tidx(i)` with the same i; the prefix lexeme for a lookup of its own tok_id)."""
+    R = 'R8.8'
+    for name in ('lr', 'lr_upto'):
+        b = find_fn(facts, R, name)
+        tab, lookup, lh = arms(facts, R, b)
+        n = 0
+        probs = set()
+        for p in tab.get('Shift', []):
+            if p.end[0] == 'diverge':
+                continue
+            lex = [e for e in p.calls(name='push') if find_variant(e[3][1], 'Lexeme', 'AStackType') is not None]
+            if len(lex) != 1:
+                continue
+            L = strip_ref(find_variant(lex[0][3][1], 'Lexeme', 'AStackType')[4][0])
+            dv = [c for c, v in p.conds if c[0] == 'discr' and is_call(c[1], 'action')]
+            if not dv or len(dv[0][1][2]) < 3:
+                continue
+            T = dv[0][1][2][2]
+            n += 1
+            nt = find_calls(T, 'next_tidx')
+            tk = find_calls(T, 'tok_id')
+            if nt:
+                I = nt[0][2][1]
+                if not (is_call(L, 'next_lexeme') and L[2][1] == I):
+                    probs.add('the action was looked up for the token at input index %s but the lexeme pushed is %s' % (fmt_term(I)[:30], fmt_term(L)[:50]))
+            elif tk:
+                X = strip_ref(tk[0][2][0])
+                if X != L:
+                    probs.add('the action was looked up for the token of %s but the lexeme pushed is %s' % (fmt_term(X)[:40], fmt_term(L)[:50]))
+            else:
+                probs.add('cannot relate the looked-up token %s to the lexeme pushed' % fmt_term(T)[:60])
+        key = 'shift-lexeme:' + name
+        if probs:
+            res.bad(R, key, loc_of(b), '; '.join(sorted(probs)))
+        elif n:
+            res.ok(R, key, loc_of(b), 'the lexeme pushed on a shift is the one whose token was looked up (%d paths)' % n)
+        else:
+            res.bad(R, key, loc_of(b), 'no Shift path pushes a lexeme value')
+
+
 def run(facts, res):
+    r88(facts, res)
     r86(facts, res)
     r85(facts, res)
     r81_82_83(facts, res)
